@@ -24,8 +24,8 @@ def registered():
 def run_one(name, props, tier, slot):
     d = os.path.join(ROOT, "seeded", name)
     meta = json.load(open(os.path.join(d, "meta.json")))
-    wt = "/tmp/seedrepo_%d" % slot
-    lean = "/tmp/seedlean_%d" % slot
+    wt = "/tmp/seedrepo_%d_%d" % (os.getpid(), slot)
+    lean = "/tmp/seedlean_%d_%d" % (os.getpid(), slot)
     out = tempfile.mkdtemp(prefix="seedout_")
     res = {}
     sh(["git", "-C", "/repo", "worktree", "remove", "--force", wt])
@@ -97,7 +97,7 @@ def main():
             for n, res in lst:
                 results.setdefault(n, {}).update(res)
     for s in range(len(slots)):
-        shutil.rmtree("/tmp/seedlean_%d" % s, ignore_errors=True)
+        shutil.rmtree("/tmp/seedlean_%d_%d" % (os.getpid(), s), ignore_errors=True)
     json.dump(results, open(path, "w"), indent=1, sort_keys=True)
     print("\n%-14s %-5s %s" % ("change", "prop", "outcome"))
     for n in sorted(results):
